@@ -742,42 +742,45 @@ func (self Node) Gets(keys []PathNode, opts *Options) (err error) {
 	if it.Err != nil {
 		return errValue(meta.ErrRead, "", it.Err)
 	}
+	for _, id := range keys {
+		if id.Path.Type() == PathStrKey && it.kt != thrift.STRING {
+			return errValue(meta.ErrUnsupportedType, "MapIterator.nextStr: key type is not string", nil)
+		} else if id.Path.Type() == PathIntKey && !it.kt.IsInt() {
+			return errValue(meta.ErrUnsupportedType, "MapIterator.nextInt: key type is not int", nil)
+		}
+	}
 	need := len(keys)
 	for count := 0; it.HasNext() && count < need; {
+		// read each entry exactly once, then match it against every requested key
+		_, kb, v, e := it.NextBin(opts.UseNativeSkip)
+		if it.Err != nil {
+			return errValue(meta.ErrRead, "", it.Err)
+		}
 		for j, id := range keys {
-			if id.Path.Type() == PathStrKey {
-				exp := id.Path.str()
-				_, s, v, e := it.NextStr(opts.UseNativeSkip)
-				if it.Err != nil {
-					return errValue(meta.ErrRead, "", it.Err)
+			hit := false
+			switch id.Path.Type() {
+			case PathStrKey:
+				hit = len(kb) >= 4 && id.Path.str() == string(kb[4:])
+			case PathIntKey:
+				var k int
+				switch it.kt {
+				case thrift.I08:
+					k = int(kb[0])
+				case thrift.I16:
+					k = int(thrift.BinaryEncoding{}.DecodeInt16(kb))
+				case thrift.I32:
+					k = int(thrift.BinaryEncoding{}.DecodeInt32(kb))
+				default:
+					k = int(thrift.BinaryEncoding{}.DecodeInt64(kb))
 				}
-				if exp == s {
-					p := &keys[j]
-					count += 1
-					p.Node = self.slice(v, e, et)
-				}
-			} else if id.Path.Type() == PathIntKey {
-				exp := id.Path.int()
-				_, s, v, e := it.NextInt(opts.UseNativeSkip)
-				if it.Err != nil {
-					return errValue(meta.ErrRead, "", it.Err)
-				}
-				if exp == s {
-					p := &keys[j]
-					count += 1
-					p.Node = self.slice(v, e, et)
-				}
-			} else {
-				exp := id.Path.bin()
-				_, s, v, e := it.NextBin(opts.UseNativeSkip)
-				if it.Err != nil {
-					return errValue(meta.ErrRead, "", it.Err)
-				}
-				if bytes.Equal(exp, s) {
-					p := &keys[j]
-					count += 1
-					p.Node = self.slice(v, e, et)
-				}
+				hit = k == id.Path.int()
+			default:
+				hit = bytes.Equal(id.Path.bin(), kb)
+			}
+			if hit {
+				p := &keys[j]
+				count += 1
+				p.Node = self.slice(v, e, et)
 			}
 		}
 	}
